@@ -1,5 +1,5 @@
 #!/bin/sh
-# Build the framework from files on disk (offline): Lean model + proofs + driver, harness x3.
+# Build the framework from files on disk (offline): Lean model + proofs + driver, harness x6.
 set -e
 cd "$(dirname "$0")/.."
 export CARGO_NET_OFFLINE=true
@@ -11,3 +11,4 @@ cargo build --release --offline --target-dir target/alloc --features cfg-alloc
 cargo build --release --offline --target-dir target/nostd
 cargo build --release --offline --target-dir target/std-co --features cfg-std,co
 cargo build --release --offline --target-dir target/alloc-co --features cfg-alloc,co
+cargo build --release --offline --target-dir target/stdv --features cfg-std,verif
